@@ -9,12 +9,12 @@
 (***************************************************************************)
 EXTENDS Symop, TLC
 
-CONSTANT NBlocks
+CONSTANTS NBlocks, Full
 VARIABLES blk, kind, x
 vars == <<blk, kind, x>>
 
 TSample == {0, 3, 4, 6, 11}                      \* twelfths used for translation samples
-TVecs == {<<a, b, c>> : a \in TSample, b \in {0, 6}, c \in {0, 8}}
+TVecs == IF Full THEN {<<a, b, c>> : a \in TSample, b \in {0, 6}, c \in {0, 8}} ELSE {<<0, 0, 0>>, <<3, 6, 8>>, <<11, 0, 4>>, <<6, 6, 0>>}
 Lattice == {<<-12, 0, 0>>, <<24, 12, -36>>, <<0, 12, 0>>}
 IsSignedPerm(r) == /\ \A i \in Idx : Cardinality({j \in Idx : r[i][j] # 0}) = 1
                    /\ \A j \in Idx : Cardinality({i \in Idx : r[i][j] # 0}) = 1
@@ -54,7 +54,7 @@ InverseIsInverse == (kind = "rot" /\ Unimod(x)) =>
    \A tv \in TVecs : LET a == Op(x, tv) IN Equal(Compose(a, InverseOp(a)), IdOp) /\ Equal(Compose(InverseOp(a), a), IdOp)
 InvertedInvolution == kind = "rot" => \A tv \in TVecs : Inverted(Inverted(Op(x, tv))) = Norm(Op(x, tv))
 ComposeCongruence == (kind = "rot" /\ Unimod(x)) =>
-   \A pc \in SmallPartners : \A tv \in {<<6,4,3>>} : \A u \in Lattice :
+   \A pc \in (IF Full THEN SmallPartners ELSE HexGens) : \A tv \in {<<6,4,3>>} : \A u \in (IF Full THEN Lattice ELSE {<<24, 12, -36>>}) :
       LET a == Op(x, tv)  b == Op(pc, <<3, 0, 8>>)
           au == [r |-> a.r, t |-> [i \in Idx |-> a.t[i] + u[i]]]
           bu == [r |-> b.r, t |-> [i \in Idx |-> b.t[i] - u[i]]]
